@@ -304,6 +304,63 @@ def rule_decfit(facts):
     return r
 
 
+def _range_checked(rec, op, bb):
+    """the narrowed value takes part in a comparison in a block that dominates the cast (its range was looked at: e.g.
+    `if wanted > MAX { MAX } else { wanted as u8 }`)"""
+    from .mir import Fn
+    from .c19b import _key
+    fn = Fn(rec)
+    if op[0] not in ("c", "m"):
+        return False
+    k, _ = _key(fn, op, bb)
+    for b, i, pl, rv, ln in fn.assigns():
+        if rv[0] == "bin" and rv[1] in ("Lt", "Le", "Gt", "Ge") and fn.dominates(b, bb) and b != bb:
+            for a in (rv[2], rv[3]):
+                if a[0] in ("c", "m") and _key(fn, a, b)[0] == k:
+                    return True
+    return False
+
+
+
+def rule_narrowing(facts, db, rows):
+    """An accumulator wider than the result type is fine (it cannot overflow), but the way back must be a checked conversion: a
+    lossy `as` / AsPrimitive::as_ between SQL integer types in an arithmetic or aggregate kernel truncates modulo 2^n - the
+    wrap the checked arithmetic was there to prevent."""
+    from .c13 import _lossy
+    r = RuleResult("C12-NARROWING", "no lossy integer narrowing (`as`, AsPrimitive::as_) of SQL values in the arithmetic / SUM / AVG kernels", floor=100)
+    seen = set()
+    for row in rows:
+        fname = row["const"].rsplit("::", 1)[-1]
+        insts = db.reachable(row, within=lambda rec: KERNEL_PREFIX in rec["id"] and any(m in rec["id"] for m in MODULES + ("::functions::aggregate::simple", )))
+        sites = []
+        for rec in insts:
+            r.functions.add(rec["key"])
+            for blk in rec["bbs"]:
+                for s_ in blk["s"]:
+                    if s_[0] == "a" and s_[2][0] == "cast" and s_[2][1] == "IntToInt":
+                        frm, to = s_[2][3], s_[2][4]
+                        if frm in SQL_INTS and to in SQL_INTS and _lossy(frm, to):
+                            if _range_checked(rec, s_[2][2], rec["bbs"].index(blk)):
+                                continue
+                            sites.append((rec, f"as:{frm}->{to}", s_[3]))
+                t = blk["t"]
+                if t[0] == "call" and "def" in t[1]:
+                    name = t[1].get("res") or t[1]["def"]
+                    m = re.search(r"<(?P<f>[iu](?:8|16|32|64|128)) as num_traits::AsPrimitive<(?P<t>[iu](?:8|16|32|64|128))>>::as_$", name)
+                    if m and _lossy(m.group("f"), m.group("t")):
+                        sites.append((rec, f"as_:{m.group('f')}->{m.group('t')}", t[6]))
+        r.inst({"row": f"{fname}#{row['ord']}", "kernel_instances": len(insts), "lossy_narrowings": len(sites)}, not sites)
+        for rec, c, ln in sites:
+            key = (rec["id"], c)
+            if key in seen:
+                continue
+            seen.add(key)
+            r.violate(rec["id"], c, f"lossy integer narrowing {c.split(':', 1)[1]} in the kernel of `{fname}`: a value outside the narrower type's range is truncated "
+                      "modulo 2^n instead of raising an overflow error", rec["file"], ln)
+    return r
+
+
+
 def rule_tablefn(facts):
     """Table functions that compute with SQL integers (generate_series: curr += step) are not registry rows with a kernel closure, so the
     instantiation walk does not reach them; their bodies are examined directly with the same classification."""
@@ -383,7 +440,7 @@ def run(ctx):
     # decimal + - and comparisons bring both operands to the common decimal type; the kernel then adds the raw integers.
     # An operand that keeps a different scale is added as if it had the common scale: a silently wrong sum.
     deccast = rule_elide(facts, rule="C12-DECCAST", only=lambda fid: "::functions::" in fid, floor=6)
-    return [r, rule_errpath(facts, db, int_rows), rule_errstate(facts), rule_decfit(facts), deccast, rule_tablefn(facts)]
+    return [r, rule_errpath(facts, db, int_rows), rule_errstate(facts), rule_decfit(facts), deccast, rule_tablefn(facts), rule_narrowing(facts, db, int_rows)]
 
 
 CLAIM = {
